@@ -53,6 +53,9 @@ def seeds(work, tier):
     return out
 
 
+JUNK = [b"\x00", b"\n", b"\xff" * 8, b"x" * 16, b"\x00" * 512, b"\x00" * 4096, bytes(range(256)), "self", "bigger-member"]
+
+
 def truncation_points(label, n, tier):
     if n <= 9000:
         pts = range(0, n)
@@ -115,6 +118,12 @@ def run(tier, seed, build=True):
                     if o + 1 < len(data):
                         cases.append((label, "corrupt2", fname, ("bytes2", o, 0xFF)))
                         cases.append((label, "corrupt2", fname, ("bytes2", o, 0x00)))
+        # bytes after the end of a complete file: padding, junk, the file once more (a second member), a larger second member
+        for label, fname, data, offs in sd:
+            if len(data) > 200000 and tier == "quick":
+                continue
+            for j in range(len(JUNK)):
+                cases.append((label, "append", fname, ("append", j)))
         # every seed under every other type-selecting name
         names = sorted({fname for _, fname, _, _ in sd} | {"x.journal.xz", "x.evtx.bz2", "lastlogx", "acct.1.gz", "x.tar"})
         for label, fname, data, offs in sd:
@@ -128,7 +137,7 @@ def run(tier, seed, build=True):
         lens = [4] if tier == "quick" else [6]
         short_names = ["s.log", "wtmp", "lastlog", "acct", "j.journal", "e.evtx", "s.log.gz", "s.log.xz", "s.log.bz2", "s.log.lz4", "s.tar"]
         if tier == "quick":
-            short_names = ["wtmp", "s.log.gz", "j.journal"]
+            short_names = ["wtmp", "s.log.gz"]
         for L in lens:
             for tup in itertools.product(alpha, repeat=L):
                 if L == 4:
@@ -146,6 +155,21 @@ def run(tier, seed, build=True):
                 return data
             if spec[0] == "trunc":
                 return data[:spec[1]]
+            if spec[0] == "append":
+                j = JUNK[spec[1]]
+                if j == "self":
+                    return data + data
+                if j == "bigger-member":
+                    if label.endswith(".gz"):
+                        return data + gen.gz(NEIGH * 3 + b"tail without newline", 6)
+                    if label.endswith(".bz2"):
+                        return data + gen.bz(NEIGH * 3, 1)
+                    if label.endswith(".xz"):
+                        return data + gen.xz(NEIGH * 3, 0)
+                    if label.endswith(".lz4"):
+                        return data + gen.lz4_frame(NEIGH * 3, 64, content_size=True, content_checksum=True)
+                    return data + data[: len(data) // 2]
+                return data + j
             b = bytearray(data)
             if spec[0] == "byte":
                 o, v = spec[1], spec[2]
@@ -196,7 +220,7 @@ def run(tier, seed, build=True):
         res.coverage["rule"] = ("seeds: one small valid file per kind x container (text, 7 accounting layouts, gz/bz2/xz/lz4/tar, utmp.gz, evtx, journal, journal.gz); faults: every truncation length "
                                 "(large formats: every length in the header region + fixed steps + tail), byte replacements {00,FF,^01,^80} at every offset of the magic/header/size/trailer classes (all 256 values "
                                 "for the accounting type field), 2-byte variants, every seed under every other type-selecting name, every byte string of length 6 over {00,0A,'0','a',80,FF} under type-selecting "
-                                "names (quick tier: every 4-byte prefix with a fixed tail under 3 names); each fault alone and beside a valid text source; oracle: exit 0/1, no signal, no 'panicked at', < 20 s, neighbour lines intact. "
+                                "names (quick tier: every 4-byte prefix with a fixed tail under 2 names); bytes appended after a complete file (padding, junk, a second and a larger second member); each fault alone and beside a valid text source; oracle: exit 0/1, no signal, no 'panicked at', < 20 s, neighbour lines intact. "
                                 "distinct_nontrivial = distinct fault cases")
         if tier == "quick":
             res.coverage["note"] = "quick tier: short strings = all 4-byte prefixes + fixed tail; truncation points of seeds > 800 bytes are every length < 300, every 29th beyond, and the tail; large seeds: header region, 4 KiB steps to 70 KB, 3 large points, tail"
